@@ -1,5 +1,5 @@
 /-
-Model of `guidedremediation/upgrade/upgrade.go` `Level.Allows` and `Config.Get` (C11).
+Model of `guidedremediation/upgrade/upgrade.go` `Level.Allows`, `Config.Get` and `NewConfigFromStrings` (C11).
 Levels and diffs are the Go enum values:
   Level: 0 Major, 1 Minor, 2 Patch, 3 None (anything else: invalid level)
   semver.Diff: 0 Same, 1 DiffOther, 2 DiffMajor, 3 DiffMinor, 4 DiffPatch, 5 DiffPrerelease, 6 DiffBuild
@@ -38,5 +38,37 @@ def configGet (cfg : List (List Char × Nat)) (pkg : List Char) : Nat :=
   | none => match cfg.find? (·.1 = []) with
     | some e => e.2
     | none => 0
+
+/-! ### `NewConfigFromStrings` (the CLI's `--upgrade-config`) -/
+
+/-- `strings.LastIndex(s, string(c))` -/
+def lastIndexOf (c : Char) : List Char → Option Nat
+  | [] => none
+  | x :: xs =>
+    match lastIndexOf c xs with
+    | some i => some (i + 1)
+    | none => if x = c then some 0 else none
+
+/-- the `switch level` of `NewConfigFromStrings`: the four level words, anything else is ignored -/
+def levelOfWord (w : List Char) : Option Nat :=
+  if w = "major".toList then some lMajor
+  else if w = "minor".toList then some lMinor
+  else if w = "patch".toList then some lPatch
+  else if w = "none".toList then some lNone
+  else none
+
+/-- one string of the list: split at the LAST colon (Maven names are `group:artifact`), no colon = no package
+(the default level, key ""); `none` = "Ignore invalid levels" -/
+def parseEntry (s : List Char) : Option (List Char × Nat) :=
+  let pw : List Char × List Char :=
+    match lastIndexOf ':' s with
+    | some i => (s.take i, s.drop (i + 1))
+    | none => ([], s)
+  (levelOfWord pw.2).map fun l => (pw.1, l)
+
+/-- `NewConfigFromStrings`: `cfg.Set` per valid string, in order.  The Go map is modelled as an association list with the
+most recent assignment first, which is the one `configGet` finds. -/
+def configFromStrings (ss : List (List Char)) : List (List Char × Nat) :=
+  ss.foldl (fun cfg s => match parseEntry s with | some e => e :: cfg | none => cfg) []
 
 end Scalibr.Upgrade
